@@ -3,11 +3,11 @@ Specs: server/AcceptDispatch.tla (C04_RoundRobin, C04_SaturatedGetsNothingStep) 
 import srvflow
 
 INV = ["T_C04_RoundRobin", "T_C04_RoundRobinMeasured", "T_C04_SaturatedGetsNothing", "T_C04_SkipsOnlyUnavailable", "T_C04_SendOnlyToMarked", "T_C04_BitsTrueWhenCalm", "T_C04_NoImmediateRepeat"]
-DESIGN = ["MC_core_quick.cfg", "MC_core_l1.cfg", "MC_core_w3l1.cfg", "MC_core_2l.cfg", "MC_cmd_quick.cfg", "MC_fault_quick.cfg"]
+DESIGN = ["MC_core_quick.cfg", "MC_core_l1.cfg", "MC_core_w3l1.cfg", "MC_core_2l.cfg", "MC_cmd_quick.cfg", "MC_fault_quick.cfg", "MC_fault_rejoin_w3.cfg"]
 EDGES = ["MC_core_quick.cfg", "MC_core_l1.cfg", "MC_core_w3l1.cfg", "MC_cmd_quick.cfg", "MC_fault_quick.cfg"]
 THOROUGH = ["MC_core_w3.cfg", "MC_core_l3.cfg", "MC_core_w3l3.cfg", "MC_core_w3c7.cfg", "MC_core_l4c9.cfg"]
 NEGS = {"NEG_RoundRobinStuck.cfg": ["C04_RoundRobin"], "NEG_NoClearOnLimit.cfg": ["C02_Bound", "Steps"],
-        "NEG_JumpToFirstAvailable.cfg": ["Steps"], "NEG_ResendWithoutCheck.cfg": ["Steps"]}
+        "NEG_JumpToFirstAvailable.cfg": ["Steps"], "NEG_ResendWithoutCheck.cfg": ["Steps"], "NEG_RejoinAtIndex.cfg": ["StepNoRepeat"]}
 
 
 def nontrivial(s, run):
